@@ -1,6 +1,8 @@
 import SekaiProofs.Lemmas.Basket
 import Sekai.Gen.App
 import Sekai.Model.App
+import Sekai.Gen.Keys
+import SekaiProofs.Lemmas.Keys
 /-! # C11 — Basket tokens stay fully backed; mint, burn and swap are value-preserving
 
 Theorems about the executable model `Sekai.Basket` (lean/Sekai/Model/Basket.lean), which mirrors
@@ -1172,5 +1174,13 @@ theorem rewards_pass_through (s s' : St) (i : Nat) (h : claimModuleRewards s (.u
         have hu : (Acct.module = Acct.user i) = False := by simp
         simp only [hf, hu, if_true, if_false]
         omega
+
+/-! ### Key spaces of the stores this model keeps in separate maps (table `Gen.Keys`)
+
+The model keeps each record kind of a module in a field of its own; the module keeps them in ONE store under byte prefixes.
+No prefix extends another (checked on the regenerated table), so by `Sekai.Keys.keys_of_different_kinds_differ` a key of one
+kind is never a key of another kind. -/
+
+theorem basket_key_spaces_disjoint : Sekai.Keys.disjoint Sekai.Gen.Keys.stores "basket" = true := by decide +kernel
 
 end Sekai.Props.C11
